@@ -13,7 +13,7 @@ import os
 import random
 
 from . import c01
-from .. import harness, membackend, refcodec, tlc
+from .. import repodrv, harness, membackend, refcodec, tlc
 
 LEVEL = 'translation_validation'
 
@@ -136,6 +136,8 @@ def direction1(run, quick, rng):
                 users = sorted(w.users)
                 tree = {('f%d.bin' % i): rng.randbytes(rng.choice([0, 1, 5, cfg['mx'], 3 * cfg['mx'] + 1, 500])) for i in range(4)}
                 # names that are not ASCII, and one that is not even valid UTF-8 (legal on Linux): the stored JSON must stay decodable by a strict reader
+                # zero runs around data: a chunk that repeats after a different new chunk, with uploads slower than existence checks
+                tree['image.raw'] = b''.join((bytes(3 * cfg['mx']) if i % 2 == 0 else rng.randbytes(2 * cfg['mx'] + 3)) for i in range(7))
                 tree['caf\u00e9 \u6f22.bin'] = rng.randbytes(9)
                 tree[b'scan-\xff\xfe-1998.dat'] = rng.randbytes(11)
                 if rep == 0 and gi in wide:
@@ -143,7 +145,7 @@ def direction1(run, quick, rng):
                     tree.update({('w/%02d/n%03d.dat' % (i % 7, i)): rng.randbytes(rng.choice([0, 3, 17, 40])) for i in range(420)})
                 harness.write_tree(d / 'src', tree)
                 for u in users:
-                    o = w.snapshot(u, [d / 'src'], note=rng.choice([None, 'a note']))
+                    o = w.snapshot(u, [d / 'src'], note=rng.choice([None, 'a note']), backend=w.backend(gate=repodrv.DelayPrefix('data/', 0.003)))
                     if not o.ok:
                         raise tlc.MachineryError('snapshot failed in C14 driver: %r' % o.exc)
                 config = refcodec.loads(store.objs['config'])
